@@ -6,6 +6,7 @@ CONSTANTS
   InitCAs = {"N", "C"}
   MaxChg = 1
   MaxRefuse = 1
+  Combine = FALSE
 VIEW view
 INVARIANTS TypeOK AdmissionSound AdmissionComplete
 CHECK_DEADLOCK FALSE
